@@ -50,6 +50,17 @@ def check(rep, ctx):
                     "taken for the definition)", floor=220)
     R_LD = rep.rule("C03-a-length-domain", "no field reader rejects a length its format carries", floor=1000)
     from .wire import length_domain_rows
+    R_EC = rep.rule("C03-error-codes", "every error code of the pinned Kafka 3.9.0 listing (the frozen reference) is a member of ErrorCode: a "
+                    "conforming response may carry any of them, and ErrorCode(value) raises ValueError for a value that is not a member", floor=120,
+                    necessary_because="an errors.py generated from an older client library lacks the codes the newest APIs return (121..127)")
+    from ..baseline import load_reference
+    ref_codes = {row[1][0]: row[0] for row in load_reference()["schema"]["errors"]}
+    have_codes = set(ctx.schema.error_codes)
+    esrc_ = ctx.sm.require("kio.schema.errors")
+    for code_, name_ in sorted(ref_codes.items()):
+        rep.check(R_EC, code_ in have_codes, construct=f"kio.schema.errors:ErrorCode.{name_}", stmt=f"{name_} = {code_}",
+                  message=f"error code {code_} ({name_}) of Kafka 3.9.0 is not a member of ErrorCode: a response carrying it cannot be decoded "
+                          f"(read_error_code raises ValueError)", file=esrc_.rel, line=0)
     R_P = rep.rule("C03-plan", "a reader plan can be derived", floor=1600)
     factory_fn = None
     for key, cls, plan in W.classes():
@@ -69,6 +80,10 @@ def check(rep, ctx):
                 if miss.get("k") != "skip":
                     if miss.get("k") == "raise":
                         problems.append(f"a tag that is not in the reader's map raises {miss.get('exc')}")
+                    elif miss.get("k") == "parsed-as-field":
+                        problems.append("a tag that is not in the reader's map has its payload parsed by a field reader"
+                                        + (f" left in {miss.get('carried')} by an earlier iteration of the loop" if miss.get("carried") else "")
+                                        + ": an unknown tagged field that follows a known one overwrites that field or mis-frames the stream")
                     elif miss.get("k") == "ignore-without-skipping":
                         problems.append("an unknown tag is ignored without consuming its payload (the stream is mis-framed)")
                     else:
